@@ -6,6 +6,10 @@ void h_subscribe_check_ready(void) { REG_SLOT(c); REG_NODE(n); cv_i1 r = aw_subs
 #ifdef CV_HAS_aw_resume_chain_set_ready
 void h_resume_chain_set_ready(void) { REG_SLOT(c); SP *r; aw_resume_chain_set_ready(r, c, (AWT *)AW_DISABLED); __CPROVER_assert(0, "SENTINEL reachable"); }
 #endif
+#ifdef CV_HAS_fu_resolve
+void h_fu_resolve(void) { gh_INSTANCE = (void *)AW_INSTANCE; gh_DISABLED = (void *)AW_DISABLED; gh_P_cell = 0; FUT *fu = malloc(sizeof(FUT)); __CPROVER_assume(fu != 0); gh_F_fut = fu; gh_F_slot = (void **)&fu->base_future_common._awaiter._M_b._M_p;
+  SP *r; fu_resolve(r, fu); __CPROVER_assert(0, "SENTINEL reachable"); }
+#endif
 #ifdef CV_HAS_aw_resume
 void h_resume(void) { SP *r; AWT *a; aw_resume(r, a); __CPROVER_assert(0, "SENTINEL reachable"); }
 #endif
